@@ -16,7 +16,7 @@ CHECKS = {
  "C05": ("model_checking", "crop-envelope relation (spec/CropRel.tla) evaluated by TLC on every day of traced runs over crops x soil classes x stress regimes; clock automaton MC_Clock carries dap/season structure. Thin model: the value is in trace validation", "5 C05", "TLA+ contract relation + TLC trace validation (thin model)"),
  "C06": ("model_checking", "multiplicative yield identities (exact limb arithmetic in TLC) on every in-season day, summary-row structure model-checked in MC_Clock and validated on traces (bit-equal yields, step/date, seasonal irrigation sum)", "5 C06", "TLC model checking of summary structure + TLC trace validation with exact arithmetic"),
  "C12": ("model_checking", "action property on parameter digests evaluated by TLC at every step of traced runs (z_cn/z_germ/z_top off compartment boundaries, non-uniform dz, deepened profiles)", "5 C12", "TLA+ action property on content digests, TLC trace validation"),
- "C13": ("model_checking", "the irrigation decision is an exact relation (spec/IrrRel.tla) recomputed by TLC for every decision of every traced run, plus day/season contract clauses; schedule bound by date", "5 C13", "exact TLA+ decision relation, TLC trace validation"),
+ "C13": ("model_checking", "the irrigation decision is an exact relation (spec/IrrRel.tla): MC_Irr (spec/AquaIrr.tla) model-checks that it implies the contract over a season; TLC recomputes it for every decision of every traced run, plus day/season contract clauses; schedule bound by date", "5 C13", "exact TLA+ decision relation, TLC trace validation"),
  "C19": ("model_checking", "water-table series recomputed by TLC from the observations, adjusted-field-capacity / capillary-rise / saturation clauses on every stage and day of traced runs; MC_Water carries the table variable", "5 C19", "TLA+ contract actions + TLC model checking + TLC trace validation"),
 }
 
